@@ -52,6 +52,19 @@ def trait_args(tr: Optional[str]):
     return tr[tr.index('<') + 1:tr.rindex('>')]
 
 
+CANARY_PRELUDE = ('canary_prelude_axioms', '''pub proof fn canary_prelude_axioms()
+    ensures false
+{
+    ax_pi(); ax_trig_values(); ax_pythagoras(0real); ax_pythagoras(r_pi() / 2real);
+    ax_sin_add(0real, r_pi() / 2real); ax_cos_add(0real, r_pi() / 2real); ax_sin_neg(0real); ax_cos_neg(0real);
+    ax_sqrt(0real); ax_sqrt(4real); ax_fmod(7real, 2real); ax_fmod(0real - 7real, 2real); ax_tan(0real);
+    ax_asin(0real); ax_asin(1real); ax_acos(1real); ax_acos(0real); ax_atan(0real);
+    ax_atan2(0real, 1real); ax_atan2(1real, 0real); ax_atan2(0real, 0real - 1real);
+    ax_approx_refl(s_zero()); ax_approx_refl(s_one()); ax_approx_zero_sep(s_one());
+}
+''')
+
+
 class Unit:
     def __init__(self, name, src: Source, model='R', subst=None):
         self.name = name
@@ -74,6 +87,7 @@ class Unit:
         self.struct_names = None    # None = all
         self.drop_traits = set()
         self.free_fns = []          # (module, name)
+        self.canaries = [CANARY_PRELUDE] if model == 'R' else []
         self.scoped_subst = []      # [(pred(im), dict)]: substitutions that apply to particular impls only (rule R4)
         self.assoc_fix = {}         # textual fixes of associated-type paths after substitution (rule R4)
         self.assume_pred = None     # (im, f) -> True: emit the contract only (external_body); proved in its home unit
@@ -197,6 +211,13 @@ class Unit:
             if not s.endswith('\n'):
                 add('\n')
             self.table.append((lo, cur_line() - 1, None, 'lemmas', 'lemma'))
+        add('// ---- vacuity canaries: each of these must FAIL (contradictory assumptions would make it pass)\n')
+        for cname, ctext in self.canaries:
+            lo = cur_line()
+            add(ctext)
+            if not ctext.endswith('\n'):
+                add('\n')
+            self.table.append((lo, cur_line() - 1, cname, 'canary', 'canary'))
         add('// ---- polynomial identities (pass B)\npub mod poly {\nuse super::*;\n')
         for s in self.poly_texts:
             lo = cur_line()
